@@ -148,7 +148,7 @@ struct Ex {
 
   const VarDecl *localHandleVar(const Expr *E) {
     if (auto *DR = dyn_cast_or_null<DeclRefExpr>(strip(E)))
-      if (auto *VD = dyn_cast<VarDecl>(DR->getDecl())) if (VD->isLocalVarDeclOrParm() && isNodeHandleType(VD->getType())) return VD;
+      if (auto *VD = dyn_cast<VarDecl>(DR->getDecl())) if (VD->isLocalVarDeclOrParm() && (isNodeHandleType(VD->getType()) || VD->getType()->isBooleanType())) return VD;
     return nullptr;
   }
 
@@ -169,7 +169,7 @@ struct Ex {
       return true;
     }
     if (auto *DS = dyn_cast<DeclStmt>(S)) {
-      for (auto *D : DS->decls()) if (auto *VD = dyn_cast<VarDecl>(D)) if (isNodeHandleType(VD->getType()) && !VD->getType()->isReferenceType()) {
+      for (auto *D : DS->decls()) if (auto *VD = dyn_cast<VarDecl>(D)) if ((isNodeHandleType(VD->getType()) || VD->getType()->isBooleanType()) && !VD->getType()->isReferenceType()) {
         o["k"] = "ldef";
         o["var"] = VD->getNameAsString();
         o["rhs"] = VD->hasInit() ? exprText(Ctx, VD->getInit()) : std::string("");
